@@ -222,11 +222,12 @@ fn bsd16(name: &str) -> u16 {
 }
 
 pub fn hash_colliders(n: usize) -> Vec<String> {
-    // names "hc<suffix>-long-name.txt" with identical 2-char prefix, extension and hash
+    // names "hcolli-<n>.txt": identical 6-character prefix (hence 2-character prefix), extension and 16-bit hash,
+    // so that both alias forms (HCOLLI~n and HCxxxx~n) collide
     let mut by: BTreeMap<u16, Vec<String>> = BTreeMap::new();
     let mut i = 0u32;
     loop {
-        let name = format!("hc{:05}-long-name.txt", i);
+        let name = format!("hcolli-{:07}.txt", i);
         let h = bsd16(&name);
         let e = by.entry(h).or_default();
         e.push(name);
@@ -265,7 +266,7 @@ pub fn run(tier: &str) -> i32 {
     let n = if th { 400 } else { 40 };
     let pops: Vec<(&str, Vec<String>)> = vec![
         ("six-char-prefix", (0..n).map(|i| format!("collide-{i}.txt")).collect()),
-        ("two-char-prefix-and-hash", hash_colliders(n.min(if th { 60 } else { 20 }))),
+        ("prefix-and-hash-collide", hash_colliders(n.min(if th { 60 } else { 24 }))),
         ("alias-shaped-long-names", (1..=n).map(|i| format!("COLLID~{i}.TXT")).collect()),
         ("alias-shaped-then-colliding", (1..=9).map(|i| format!("COLLID~{i}.TXT")).chain((0..n).map(|i| format!("collide-{i}.txt"))).collect()),
         ("non-ascii-prefix", (0..n).map(|i| format!("ééééééé-{i}.tx")).collect()),
